@@ -1,4 +1,5 @@
 import PbVerif.Lemmas.Kron
+import PbVerif.Lemmas.Axes
 /-! C20 — 2-D eigendecomposition and array algebra agree with the full 2-D system. -/
 namespace PbVerif.C20
 open PbVerif.Kron PbVerif.Lemmas
@@ -26,5 +27,104 @@ theorem full_eigen_eq_direct {N : Type} [Fintype N] [DecidableEq N]
 
 example : makeBtwb [[1, 2], [3, 4]] [[1, 0, 2], [0, 1, 1]] [[1, 2], [3, 4]] 4 2 = kronBtwb [[1, 2], [3, 4]] [[1, 0, 2], [0, 1, 1]] [[1, 2], [3, 4]] 4 2
     ∧ kronBtwb [[1, 2], [3, 4]] [[1, 0, 2], [0, 1, 1]] [[1, 2], [3, 4]] 4 2 = 52 := by decide +kernel
+
+
+/-! ### `Baseline2D.individual_axes` (`two_d/optimizers.py:_Optimizers.individual_axes`): the plan and its meaning
+for an arbitrary 1-D method `fit : coordinates → kwargs → data → baseline` -/
+section individual_axes
+open PbVerif.Axes
+
+/-- individualAxes_plan: for valid `axes` and `method_kwargs`, step i works along `axes[i]`, its 1-D fitter gets
+`(x, z)[axes[i]]` (the caller's vectors), its keyword arguments are `method_kwargs[i]` after the pairing, and its
+results are stored under 'rows' (axis 0) / 'columns' (axis 1).  `AxisOk`: the axes are the documented 0 / 1 (the code
+does not check this: 2 raises IndexError at `(x, z)[axis]`, negative values wrap around) -/
+theorem individualAxes_plan {α : Type} (empty : α) (axes : AxesArg) (_hok : AxisOk axes) (kw : KwArg α) (ax : List Nat) (kws : List α)
+    (ha : normAxes axes = .ok ax) (hk : pairKwargs empty ax.length kw = .ok kws) (i : Nat) (hi : i < ax.length) :
+    ∃ steps, individualAxesPlan empty axes kw = .ok steps ∧ steps.length = ax.length ∧
+      ∃ hs : i < steps.length, steps[i].axis = ax[i] ∧ steps[i].coord = coordOf ax[i] ∧ steps[i].key = keyOf ax[i] ∧
+        steps[i].kw = kws[i]'(by rw [pairKwargs_length empty _ kw kws hk]; exact hi) :=
+  plan_step empty axes kw ax kws ha hk i hi
+
+/-- how `method_kwargs` is paired with the axes: `None`, an empty sequence → `{}` for every axis; one dict or a
+sequence of one dict → that dict for every axis; a longer sequence must have one dict per axis (used by position),
+otherwise ValueError -/
+theorem individualAxes_kwargs_pairing {α : Type} (empty : α) (num : Nat) :
+    pairKwargs empty num .none = .ok (List.replicate num empty) ∧
+    (∀ d, pairKwargs empty num (.dict d) = .ok (List.replicate num d)) ∧
+    pairKwargs empty num (.seq []) = .ok (List.replicate num empty) ∧
+    (∀ d, pairKwargs empty num (.seq [d]) = .ok (List.replicate num d)) ∧
+    (∀ l : List α, 2 ≤ l.length → l.length = num → pairKwargs empty num (.seq l) = .ok l) ∧
+    (∀ l : List α, 2 ≤ l.length → l.length ≠ num → pairKwargs empty num (.seq l) = .error .valueError) :=
+  pairKwargs_spec empty num
+
+example : AxisOk (.two 1 0) ∧ AxisOk (.one 1) := by simp [AxisOk]
+/-- the same axis twice is rejected whatever `method_kwargs` is; a scalar axis with two dicts is rejected -/
+theorem individualAxes_errors {α : Type} (empty : α) (a : Nat) (kw : KwArg α) (d0 d1 : α) :
+    individualAxesPlan empty (.two a a) kw = .error .valueError ∧
+    individualAxesPlan empty (.one a) (.seq [d0, d1]) = .error .valueError := by
+  constructor <;> simp [individualAxesPlan, normAxes, pairKwargs]
+
+/-- shape preservation: for a 1-D method that returns as many points as it gets, the baseline and every partial
+baseline have the shape (M, N) of the data -/
+theorem individualAxes_shape {α : Type} (fit : Fit1 α) (hf : LenPres1 fit) (empty : α) (x z : List Rat) (data : Axes.Mat) (m n : Nat)
+    (hD : RectMN data m n) (hm : 0 < m) (hn : 0 < n) (axes : AxesArg) (_hok : AxisOk axes) (kw : KwArg α) (out : Axes.Mat × List (String × Axes.Mat))
+    (h : individualAxes fit empty x z data axes kw = .ok out) :
+    RectMN out.1 m n ∧ ∀ kp ∈ out.2, RectMN kp.2 m n := by
+  unfold individualAxes at h
+  cases hp : individualAxesPlan empty axes kw with
+  | error e => simp [hp] at h
+  | ok steps =>
+    simp only [hp, Except.ok.injEq] at h
+    rw [← h]
+    exact runSteps_shape fit hf x z data m n hD hm hn steps
+
+/-- `axes=a` (one axis) uses only that axis' coordinates: the other vector may be anything -/
+theorem individualAxes_one_axis_coords {α : Type} (fit : Fit1 α) (empty : α) (x z x' z' : List Rat) (data : Axes.Mat) (a : Nat) (_ha : a ≤ 1)
+    (kw : KwArg α) (h : if a = 0 then x = x' else z = z') :
+    individualAxes fit empty x z data (.one a) kw = individualAxes fit empty x' z' data (.one a) kw :=
+  one_axis_coord fit empty x z x' z' data a kw h
+
+/-- `axes=(a, b)` with kwargs `[k0, k1]` is `axes=a` with `k0` on the data followed by `axes=b` with `k1` on the data
+minus the first baseline: the baselines add up and the partial baselines are those of the two single-axis calls -/
+theorem individualAxes_two_is_one_then_one {α : Type} (fit : Fit1 α) (hf : LenPres1 fit) (empty : α) (x z : List Rat) (data : Axes.Mat)
+    (m n : Nat) (hD : RectMN data m n) (hm : 0 < m) (hn : 0 < n) (a b : Nat) (_ha : a ≤ 1) (_hb : b ≤ 1) (hab : a ≠ b) (k0 k1 : α) :
+    ∃ (B0 B1 : Axes.Mat) (P0 P1 : List (String × Axes.Mat)),
+      individualAxes fit empty x z data (.one a) (.dict k0) = .ok (B0, P0) ∧
+      individualAxes fit empty x z (sub data B0) (.one b) (.dict k1) = .ok (B1, P1) ∧
+      individualAxes fit empty x z data (.two a b) (.seq [k0, k1]) = .ok (add B0 B1, P0 ++ P1) :=
+  two_eq_one_then_one fit hf empty x z data m n hD hm hn a b hab k0 k1
+
+/-- giving x, z and the data in another order (rows taken in the order `p`, columns in the order `s`) re-orders the
+baseline and every partial baseline the same way, provided the 1-D method itself commutes with re-ordering its
+coordinates and data together (C02) -/
+theorem individualAxes_reorder {α : Type} (fit : Fit1 α) (hf : LenPres1 fit) (empty : α) (x z : List Rat) (data : Axes.Mat) (m n : Nat)
+    (hD : RectMN data m n) (hm : 0 < m) (hn : 0 < n) (p s : List Nat) (hp : p.length = m) (hs : s.length = n)
+    (hpm : ∀ i ∈ p, i < m) (hsn : ∀ j ∈ s, j < n) (hx : Equivariant fit p x) (hz : Equivariant fit s z)
+    (axes : AxesArg) (_hok : AxisOk axes) (kw : KwArg α) :
+    individualAxes fit empty (take1 p x) (take1 s z) (take2 p s data) axes kw =
+      (individualAxes fit empty x z data axes kw).map (reorder p s) :=
+  individualAxes_take2 fit hf empty x z data m n hD hm hn p s hp hs hpm hsn hx hz axes kw
+
+/-- a 1-D "method" for the examples: baseline_i = c_i · v_i + k -/
+def exFit : Fit1 Rat := fun c k v => List.zipWith (fun ci vi => ci * vi + k) c v
+
+example : (individualAxesPlan "{}" (.two 1 0) (.seq ["A", "B"])).toOption.map (·.map fun s => (s.axis, s.coord, s.kw, s.key)) =
+      some [(1, .z, "A", "columns"), (0, .x, "B", "rows")] ∧
+    (individualAxesPlan "{}" (.one 1) .none).toOption.map (·.map fun s => (s.axis, s.coord, s.kw, s.key)) = some [(1, .z, "{}", "columns")] := by
+  decide
+example : individualAxes exFit 0 [1, 2] [1, 0, 2] [[1, 2, 3], [4, 5, 6]] (.two 0 1) (.seq [1, 0]) =
+    .ok ([[1, 3, 2], [4, 11, -1]], [("rows", [[2, 3, 4], [9, 11, 13]]), ("columns", [[-1, 0, -2], [-5, 0, -14]])]) := by
+  decide +kernel
+example : individualAxes exFit 0 [2, 1] [2, 1, 0] (take2 [1, 0] [2, 0, 1] [[1, 2, 3], [4, 5, 6]]) (.two 0 1) (.seq [1, 0]) =
+    .ok (reorder [1, 0] [2, 0, 1] ([[1, 3, 2], [4, 11, -1]], [("rows", [[2, 3, 4], [9, 11, 13]]), ("columns", [[-1, 0, -2], [-5, 0, -14]])])) := by
+  decide +kernel
+example : LenPres1 (fun (_ : List Rat) (k : Rat) v => v.map (· + k)) ∧ RectMN [[1, 2, 3], [4, 5, 6]] 2 3 ∧
+    Equivariant (fun (_ : List Rat) (k : Rat) v => v.map (· + k)) [1, 0] [1, 2] := by
+  refine ⟨fun _ _ v => by simp, ⟨rfl, by simp⟩, ?_⟩
+  intro k v hv
+  match v, hv with
+  | [a, b], _ => simp [take1]
+
+end individual_axes
 
 end PbVerif.C20
